@@ -219,7 +219,9 @@ static void fill_ion(IonizationVariables &v) {
 static const double SIDES[] = {1., 0.5, 2., 0.3, 0.7, 1.1, 3., 0.1, 1.e-3, 7.e-3, 1. / 3., 3.0856e16};
 
 // compare every member of a hydro subgrid that is NOT in the restart file
-static void compare_subgrid(const HydroDensitySubGrid &a, const HydroDensitySubGrid &b, const std::string &tag) {
+// (the active-buffer table of a COPY is not initialised by the copy constructor: every radiation step sets it for all
+// subgrids before use, so it is only compared for original subgrids)
+static void compare_subgrid(const HydroDensitySubGrid &a, const HydroDensitySubGrid &b, const std::string &tag, bool active = true) {
   std::string bad;
   for (int i = 0; i < 3; ++i) {
     if (!same(a._inv_cell_size[i], b._inv_cell_size[i]))
@@ -234,7 +236,7 @@ static void compare_subgrid(const HydroDensitySubGrid &a, const HydroDensitySubG
     bad += " _inverse_cell_volume";
   if (!same(a._cell_volume, b._cell_volume))
     bad += " _cell_volume";
-  for (int i = 0; i < TRAVELDIRECTION_NUMBER; ++i)
+  for (int i = 0; active && i < TRAVELDIRECTION_NUMBER; ++i)
     if (a._active_buffers[i] != b._active_buffers[i]) {
       bad += " _active_buffers";
       break;
@@ -404,7 +406,8 @@ static Cycle run_case(const std::string &cls, const std::string &path) {
                      return;
                    }
                    for (size_t i = 0; i < a._subgrids.size(); ++i)
-                     compare_subgrid(*a._subgrids[i], *b._subgrids[i], "DensitySubGridCreator subgrid " + std::to_string(i));
+                     compare_subgrid(*a._subgrids[i], *b._subgrids[i], "DensitySubGridCreator subgrid " + std::to_string(i),
+                                     i < a.number_of_original_subgrids());
                  });
   }
   if (cls == "AlveliusTurbulenceForcing") {
@@ -596,7 +599,7 @@ static Cycle run_case(const std::string &cls, const std::string &path) {
         const int n = 1 + below(5);
         f << "number of sources: " << n << "\n";
         for (int i = 0; i < n; ++i)
-          f << "source[" << i << "]:\n  position: [" << uni() << " m, " << uni() << " m, " << -uni() << " m]\n  luminosity: " << posd()
+          f << "source[" << i << "]:\n  position: [" << uni() << " m, " << uni() << " m, " << -uni() << " m]\n  luminosity: " << (1. + uni())
             << "e48 s^-1\n";
       }
       psd = new AsciiFilePhotonSourceDistribution("sources.yml");
